@@ -1808,3 +1808,212 @@ func (r *Run) filledFromOutside(t types.Type) string {
 	}
 	return ""
 }
+
+// ruleLoopAlias (R3m.alias): one variable, declared outside a loop, is changed in every round
+// of the loop and its ADDRESS is put into a collection in every round (`cpy := *step; for … {
+// cpy.InsertionPoint = ip; steps = append(steps, &cpy) }`): all entries of the collection are
+// the same object and end up with the values of the last round. Copy-per-element loops of this
+// module (a step per insertion point, a request per entity) rely on a fresh copy per round.
+func ruleLoopAlias(r *Run) {
+	const rule = "R3m.alias"
+	n, loops := 0, 0
+	for _, fn := range r.P.Funcs {
+		if !inModule(fn) {
+			continue
+		}
+		for _, ins := range allInstrs(fn) {
+			al, ok := ins.(*ssa.Alloc)
+			if !ok || !al.Heap || al.Referrers() == nil {
+				continue
+			}
+			// the rounds that both write the variable and hand out its address
+			type use struct{ writes, escapes ssa.Instruction }
+			perLoop := map[*ssa.BasicBlock]*use{}
+			for _, ref := range *al.Referrers() {
+				var wr, esc ssa.Instruction
+				switch x := ref.(type) {
+				case *ssa.Store:
+					if x.Addr == ssa.Value(al) {
+						wr = x
+					} else if x.Val == ssa.Value(al) {
+						esc = x // the pointer itself is stored somewhere (an element of a list, a field)
+					}
+				case *ssa.FieldAddr:
+					if x.Referrers() != nil {
+						for _, r2 := range *x.Referrers() {
+							if st, ok := r2.(*ssa.Store); ok && st.Addr == ssa.Value(x) {
+								wr = st
+							}
+						}
+					}
+				}
+				for _, at := range []ssa.Instruction{wr, esc} {
+					if at == nil {
+						continue
+					}
+					loop := innermostLoop(at.Block())
+					for loop != nil {
+						if loop[al.Block()] {
+							break // declared inside this loop: a fresh variable per round
+						}
+						var header *ssa.BasicBlock
+						for b := range loop {
+							for _, p := range b.Preds {
+								if !loop[p] {
+									header = b
+								}
+							}
+						}
+						if header == nil {
+							break
+						}
+						u := perLoop[header]
+						if u == nil {
+							u = &use{}
+							perLoop[header] = u
+						}
+						if at == wr {
+							u.writes = at
+						} else {
+							u.escapes = at
+						}
+						// the enclosing loop, if any
+						var outer map[*ssa.BasicBlock]bool
+						for _, p := range header.Preds {
+							if !loop[p] {
+								outer = innermostLoop(p)
+							}
+						}
+						loop = outer
+					}
+				}
+			}
+			for _, u := range perLoop {
+				loops++
+				if u.writes == nil || u.escapes == nil {
+					continue
+				}
+				n++
+				r.Bad(rule, fnName(fn), "address of "+al.Comment+" collected in a loop that rewrites it", r.P.pos(u.escapes.Pos()),
+					"the variable "+al.Comment+" is declared outside the loop, changed in every round ("+r.P.pos(u.writes.Pos())+") and its address is stored in every round: every entry collected is the same object and carries the values of the last round — the copy was meant to be made per round")
+			}
+		}
+	}
+	r.OKTrivial(rule, "", "loops checked", "-", strconv.Itoa(loops)+" loop(s) that write or hand out a variable declared outside them; "+strconv.Itoa(n)+" do both")
+}
+
+// ruleLastWinsMerge (R3n.merge): maps whose values are LISTS (routed selection sets per service,
+// steps per depth) are merged by appending. A last-wins merge of the library (`lo.Assign`,
+// `maps.Copy`) replaces the list of a key both maps have: the selections already routed to a
+// service are dropped when the grouped node lookups for the same service are merged in.
+func ruleLastWinsMerge(r *Run) {
+	const rule = "R3n.merge"
+	n := 0
+	for _, fn := range r.P.Funcs {
+		if !inModule(fn) {
+			continue
+		}
+		for _, ins := range allInstrs(fn) {
+			ci, ok := ins.(ssa.CallInstruction)
+			if !ok {
+				continue
+			}
+			name := strings.SplitN(calleeName(ci.Common()), "[", 2)[0]
+			if !(strings.HasSuffix(name, "samber/lo.Assign") || name == "maps.Copy" || strings.HasSuffix(name, "exp/maps.Copy") || name == "maps.Insert") {
+				continue
+			}
+			listValued := false
+			var walk func(t types.Type, depth int)
+			walk = func(t types.Type, depth int) {
+				if depth > 3 || t == nil {
+					return
+				}
+				switch x := t.Underlying().(type) {
+				case *types.Map:
+					if _, isSlice := x.Elem().Underlying().(*types.Slice); isSlice {
+						listValued = true
+					}
+				case *types.Slice:
+					walk(x.Elem(), depth+1)
+				}
+			}
+			for _, a := range ci.Common().Args {
+				walk(a.Type(), 0)
+			}
+			if !listValued {
+				continue
+			}
+			n++
+			r.Bad(rule, fnName(fn), "last-wins merge of list-valued maps", r.P.pos(ins.Pos()),
+				"maps whose values are lists are merged with "+name[strings.LastIndex(name, "/")+1:]+", which keeps only the last map's list for a key both have: the entries of the other list are dropped (root fields already routed to a service vanish when a second group for the same service is merged in); such maps are merged by appending")
+		}
+	}
+	r.OKTrivial(rule, "", "last-wins merges of list-valued maps", "-", strconv.Itoa(n)+" in the module")
+}
+
+// ruleAssertedErrorNil (R7.P5.err): an error list decoded from a service's answer may hold null
+// entries (`"errors": [null]` is a failure signal like any other), and an entry travels on as a
+// non-nil `error` interface that holds a nil *Error. Where such a value is taken out of the
+// interface again (`case *Error:`, `e, ok := err.(*Error)`), the pointer may be nil: it may be
+// handed on, but a dereference needs a nil test in front of it. The functions concerned run in
+// the collector goroutine of the fan-out helper, where a panic ends the process.
+func ruleAssertedErrorNil(r *Run) {
+	const rule = "R7.P5.err"
+	n := 0
+	for _, fn := range r.P.Funcs {
+		if !inModule(fn) {
+			continue
+		}
+		k := 0
+		for _, ins := range allInstrs(fn) {
+			ta, ok := ins.(*ssa.TypeAssert)
+			if !ok {
+				continue
+			}
+			pt, ok := ta.AssertedType.(*types.Pointer)
+			if !ok || namedOf(pt.Elem()) != modPath+"/gqlerrors.Error" {
+				continue
+			}
+			var v ssa.Value = ta
+			if ta.CommaOk {
+				v = nil
+				for _, ref := range *ta.Referrers() {
+					if ex, ok := ref.(*ssa.Extract); ok && ex.Index == 0 {
+						v = ex
+					}
+				}
+				if v == nil {
+					continue
+				}
+			}
+			n++
+			k++
+			key := "error taken out of the interface"
+			if k > 1 {
+				key += "#" + strconv.Itoa(k)
+			}
+			var bad ssa.Instruction
+			if refs := v.Referrers(); refs != nil {
+				for _, ref := range *refs {
+					deref := false
+					switch x := ref.(type) {
+					case *ssa.FieldAddr:
+						deref = x.X == v
+					case *ssa.UnOp:
+						deref = x.Op == token.MUL && x.X == v
+					}
+					if deref && !notNilAt(v, ref.Block()) {
+						bad = ref
+					}
+				}
+			}
+			if bad != nil {
+				r.Bad(rule, fnName(fn), key, r.P.pos(bad.Pos()),
+					"the *Error taken out of an error interface is dereferenced without a nil test: a null entry of a service's errors list arrives here as a non-nil error holding a nil pointer, and the dereference panics — in the collector goroutine of the fan-out helper, which takes the process down")
+			} else {
+				r.OK(rule, fnName(fn), key, r.P.pos(ta.Pos()), "the pointer is only handed on, or every dereference stands behind a nil test")
+			}
+		}
+	}
+	r.AtLeast(rule, "places where a *gqlerrors.Error is taken out of an error interface", n, 1)
+}
